@@ -438,7 +438,48 @@ def _on_chain(inp, i, addr, accts):
     return False
 
 
-def spec_pfm_hist(rec):
+def spec_pfm_c31(rec):
+    """C31 on the implementation's record: after the origin transfer and after every relayer operation of every route,
+    on every chain and for every denomination, the tracked total escrow (GetTotalEscrowForDenom) equals the combined
+    balance of that chain's transfer escrow accounts; likewise at quiescence."""
+    inp = rec["in"]
+    labels = inp["labels"]
+    for ri, (rr, ob) in enumerate(zip(inp["routes"], rec["out"])):
+        ops = [["transfer", rr["route"]["chain"], rr["route"]["chan"], "-"]] + list(rr.get("ops") or [])
+        for oi, snapshot in enumerate(rr.get("esctr") or []):
+            for ci, co in enumerate(snapshot):
+                tracked = dict((d, int(x)) for d, x in co["esc"] or [])
+                held = {}
+                for a, d, x in co["held"] or []:
+                    held[d] = held.get(d, 0) + int(x)
+                for d in sorted(set(tracked) | set(held)):
+                    if tracked.get(d, 0) != held.get(d, 0):
+                        op = ops[oi] if oi < len(ops) else ["?", "?", "?", "?"]
+                        return ("route %d (%s), after operation %d (%s on chain %s, %s/%s): chain %d tracks total escrow %d of %s "
+                                "but its transfer escrow accounts hold %d" % (ri, rr.get("tag"), oi, op[0], op[1], op[2], op[3], ci,
+                                                                           tracked.get(d, 0), d, held.get(d, 0)))
+        for ci, co in enumerate(ob):
+            tracked = dict((d, int(x)) for d, x in co["esc"] or [])
+            held = {}
+            for a, d, x in co["bal"] or []:
+                if labels.get(a, [""])[0] == "escrow":
+                    held[d] = held.get(d, 0) + int(x)
+            for d in sorted(set(tracked) | set(held)):
+                if tracked.get(d, 0) != held.get(d, 0):
+                    return ("route %d (%s), at quiescence: chain %d tracks total escrow %d of %s but its transfer escrow accounts hold %d"
+                            % (ri, rr.get("tag"), ci, tracked.get(d, 0), d, held.get(d, 0)))
+        if rr.get("failed"):
+            return "route %d (%s): a relayer transaction failed: %s" % (ri, rr.get("tag"), rr["failed"][:300])
+    return None
+
+
+def spec_pfm_hist(rec, pid="C43"):
+    if pid == "C31":
+        return spec_pfm_c31(rec)
+    return spec_pfm_c43(rec)
+
+
+def spec_pfm_c43(rec):
     """C43 on the implementation's record, route by route at quiescence: all-or-nothing, nothing left on intermediate
     chains' override accounts, no in-flight record, vouchers backed by escrow across every channel."""
     inp = rec["in"]
@@ -464,6 +505,8 @@ def spec_pfm_hist(rec):
         r = rr["route"]
         before, after = tab(prev), tab(ob)
         where = "route %d (%s)" % (ri, rr.get("tag"))
+        if rr.get("failed"):
+            return "%s: a relayer transaction failed, the route cannot complete (funds and in-flight record stuck): %s" % (where, rr["failed"][:300])
         # no in-flight record anywhere
         for i, co in enumerate(ob):
             if co["infl"]:
@@ -559,7 +602,7 @@ def nontrivial_pfm(rec):
 
 KINDS = {
     "rl_hist": dict(props=["C41"], enc=enc_rl_hist, spec=spec_rl_hist, exact=True, nontrivial=nontrivial_rl),
-    "pfm_hist": dict(props=["C43"], enc=enc_pfm_hist, spec=spec_pfm_hist, exact=True, nontrivial=nontrivial_pfm),
+    "pfm_hist": dict(props=["C43", "C31"], enc=enc_pfm_hist, spec=spec_pfm_hist, spec_takes_pid=True, exact=True, nontrivial=nontrivial_pfm),
     "pfm_denom": dict(props=["C43"], enc=enc_pfm_denom, spec=spec_pfm_denom, exact=True),
 }
 
